@@ -864,3 +864,42 @@ _run_c30e = run
 def run(ctx):  # noqa: F811
     _run_c30e(ctx)
     r30_8(ctx, ctx.model)
+
+
+# ---------------------------------------------------------------------------------------------------------------- R30.9
+def r30_9(ctx, m):
+    R = "R30.9"
+    ctx.rule(R, "NormalTransform / LognormalTransform: mean and sigma reach the operator arithmetic through value_reshaper (or "
+                "lognormal_moments, which calls it) in EVERY branch on N_copies - the scalar-target branch included - so that scalars "
+                "and length-one arrays are accepted alike by both transforms (sibling agreement)", floor=2)
+    mod = m.module("nifty.cl.operators.normal_operators", required=False)
+    if mod is None:
+        ctx.und(R, "nifty.cl.operators.normal_operators", "module missing", "nifty/cl/operators/normal_operators.py")
+        return
+    for name in ("NormalTransform", "LognormalTransform"):
+        fi = mod.functions.get(name)
+        if fi is None:
+            ctx.und(R, f"{mod.relpath}::{name}", "function missing", mod.relpath)
+            continue
+        ctx.saw_func(fi)
+        pm, ps = fi.params()[:2]
+        # every assignment that re-binds mean / sigma must go through one of the reshaping helpers
+        bad = []
+        for st in walk_no_nested(fi.node):
+            if isinstance(st, ast.Assign) and any(isinstance(z, ast.Name) and z.id in (pm, ps) and isinstance(z.ctx, ast.Store) for t in st.targets for z in ast.walk(t)):
+                if not any(isinstance(c, ast.Call) and call_name(c) in ("value_reshaper", "lognormal_moments") for c in ast.walk(st.value)):
+                    bad.append(st)
+        rebinds = [st for st in walk_no_nested(fi.node) if isinstance(st, ast.Assign) and any(isinstance(z, ast.Name) and z.id in (pm, ps) and isinstance(z.ctx, ast.Store)
+                                                                                                for t in st.targets for z in ast.walk(t))]
+        deleg = any(isinstance(c, ast.Call) and call_name(c) in ("value_reshaper", "lognormal_moments") and
+                    {src(a) for a in c.args} >= {pm, ps} for c in ast.walk(fi.node))
+        ctx.check(R, f"{fi.key}::parameters pass value_reshaper in every branch", (not bad) if (rebinds or deleg) else None,
+                  f"`{short(bad[0], 70)}` bypasses the reshaping helper" if bad else "", fi, bad[0] if bad else None)
+
+
+_run_c30f = run
+
+
+def run(ctx):  # noqa: F811
+    _run_c30f(ctx)
+    r30_9(ctx, ctx.model)
